@@ -21,7 +21,7 @@ func init() {
 			Rule: "stateless exploration of ALL interleavings (no preemption bound; with two commands: up to 2 (quick) / 4 (thorough) preemptions) of the real runner code (runner.go / command_storer.go rewritten so that every go statement, channel send, select and time.Sleep is a scheduling point of a cooperative scheduler; virtual clock) for scripts L0 <<c1 7 true>> <<set $k += 1>> L1 <<c2>> <<set $k += 1>> L2 with one or two commands; " +
 				"each command gets a handler shape from {raw AddCommand with a channel already holding nil / an error; raw with the channel completed later by a completer thread (send nil, send error, close; buffered, and unbuffered with the sender parked in its send until a poll takes the value); converted func(..), func(..) error (nil / error), func(..) <-chan error, func(..) chan error; built-in wait 0 / 0.5 / 1 / 1.5 / 0.0009 / 1.0005; unregistered name}, asynchronous handlers ungated or gated (a gate that only the host opens after p in 0..2 polls); " +
 				"the host thread performs up to 8 Next calls and, for wait, advances the virtual clock by steps from {n/2, n/2-1ns, 1ns}; oracle per execution: no Next ever blocks (host stuck inside the API with no enabled thread), no panic; the results follow L0 W* [E]? L1(k=1) W* [E]? L2(k=2) end with W = ErrWaitingForCommandCompletion exactly while completion cannot have been reported, E exactly once iff the command reports an error, " +
-				"no W once completion has been reported and every other thread is quiet; every executed command statement invokes its handler exactly once with (7, true); wait n never completes at a virtual time below n seconds after it started; R: a pending (gated) command abandoned by RestoreAt and the same command statement executed again - the second execution must wait for its own handler; TAIL: the same with the (last) command as last statement of its node - nothing is left to run while it is pending; RF: one command of every shape and, before one of the first three polls, a RestoreAt of a snapshot naming an unknown node, which is refused and changes nothing (the pending command is still waited for, its error still surfaced once); plus a free-running -race pass over the same shapes; " +
+				"no W once completion has been reported and every other thread is quiet; every executed command statement invokes its handler exactly once with (7, true); wait n never completes at a virtual time below n seconds after it started; R: a pending (gated) command abandoned by RestoreAt and the same command statement executed again - the second execution must wait for its own handler; REREG: a command statement executed again (through a jump or a restore) after the host registered another handler, or a first one, under its name: the handler registered now is invoked, once; TAIL: the same with the (last) command as last statement of its node - nothing is left to run while it is pending; RF: one command of every shape and, before one of the first three polls, a RestoreAt of a snapshot naming an unknown node, which is refused and changes nothing (the pending command is still waited for, its error still surfaced once); plus a free-running -race pass over the same shapes; " +
 				"a case is one complete schedule; non-trivial = schedule with at least one poll answered by ErrWaitingForCommandCompletion",
 			StatesMean:  "distinct complete schedules (executions) of the rewritten code; transitions = scheduling points granted",
 			Assumptions: []string{"sequentially consistent executions at the granularity of the hooked operations; unsynchronised accesses between hooks are the subject of the separate -race pass", "unbuffered channels are modelled as a rendezvous between a parked sender and the polling select", "the rewriting rules are syntactic and local (cmd/vrewrite); the rewritten package is the code that runs"},
@@ -552,6 +552,120 @@ func runC10(ctx *report.Ctx) {
 			return
 		}
 		runCfg(c, "TAIL", cfg)
+	})
+	// REREG: a command statement executed again after the host has registered another handler under its name (or a first
+	// handler, the name having been unknown the first time): the handler registered now is invoked, once; the statement is
+	// reached again through a jump or through RestoreAt (handlers that complete before they return: no thread is involved)
+	part(ctx, "REREG", -1, func(c *explore.Chooser) {
+		firstKnown := c.Choose(2, "first-execution-has-a-handler") == 1
+		route1 := c.Choose(2, "first-route")
+		route2 := c.Choose(2, "second-route")
+		viaRestore := c.Choose(2, "again-through") == 1
+		other := c.Choose(2, "another-command-in-between") == 1
+		if !c.Mine() {
+			return
+		}
+		w := fmt.Sprintf("<<c1 7 true>> executed twice; first execution has a handler: %v (route %d); then a handler is registered (route %d); reached again through restore: %v; another command in between: %v", firstKnown, route1, route2, viaRestore, other)
+		ctx.Current("REREG: " + w)
+		src := "title: A\n---\nL0\n<<c1 7 true>>\nL1\n"
+		if other {
+			src += "<<c2 1 false>>\n"
+		}
+		src += "<<jump A>>\n===\n"
+		dr, err := ysgo.NewDialogueRunner(nil, "abc", strings.NewReader(src))
+		if err != nil {
+			ctx.HarnessError("C10: script does not load: %v", err)
+			return
+		}
+		var log []string
+		reg := func(name, tag string, route int) {
+			if route == 0 {
+				dr.AddCommand(name, func(args []*variable.Value) <-chan error {
+					log = append(log, tag)
+					ch := make(chan error, 1)
+					ch <- nil
+					return ch
+				})
+				return
+			}
+			dr.ConvertAndAddCommand(name, func(n int, b bool) chan error {
+				log = append(log, fmt.Sprintf("%s(%d,%v)", tag, n, b))
+				ch := make(chan error, 1)
+				ch <- nil
+				return ch
+			})
+		}
+		tagOf := func(tag string, route int) string {
+			if route == 0 {
+				return tag
+			}
+			return tag + "(7,true)"
+		}
+		reg("c2", "other", 0)
+		if firstKnown {
+			reg("c1", "h1", route1)
+		}
+		snap := dr.Snapshot()
+		ctx.AddEvals(1, 1)
+		ctx.AddStates(1)
+		ctx.AddTraces(1)
+		fail := func(detail string) {
+			ctx.Violation(report.Violation{Clause: "handler-not-invoked-once", Witness: w, Detail: detail + fmt.Sprintf(" (invocations %v)", log), Choices: c.Choices(), Part: "REREG", Extra: map[string]any{"scripts": []string{src}}})
+		}
+		next := func() string {
+			el, err := dr.Next(0)
+			ctx.AddTransitions(1)
+			switch {
+			case err != nil:
+				return "E"
+			case el == nil:
+				return "end"
+			case el.Line != nil:
+				return el.Line.Text
+			}
+			return "?"
+		}
+		if r := next(); r != "L0" {
+			fail("expected L0, got " + r)
+			return
+		}
+		r := next()
+		if !firstKnown {
+			if r != "E" {
+				fail("an unregistered command must be an error, got " + r)
+				return
+			}
+			r = next()
+		}
+		if r != "L1" {
+			fail("expected L1 after the first execution, got " + r)
+			return
+		}
+		want := []string{}
+		if firstKnown {
+			want = append(want, tagOf("h1", route1))
+		}
+		reg("c1", "h2", route2)
+		if viaRestore {
+			if err := dr.RestoreAt(snap); err != nil {
+				ctx.HarnessError("C10: RestoreAt failed: %v", err)
+				return
+			}
+		} else if other {
+			want = append(want, "other")
+		}
+		if r := next(); r != "L0" {
+			fail("expected L0 again, got " + r)
+			return
+		}
+		if r := next(); r != "L1" {
+			fail("second execution of the command: expected L1, got " + r)
+			return
+		}
+		want = append(want, tagOf("h2", route2))
+		if strings.Join(log, ";") != strings.Join(want, ";") {
+			fail(fmt.Sprintf("handler invocations expected %v", want))
+		}
 	})
 	// R: a pending command abandoned by RestoreAt, then the same command statement executed again: the second
 	// execution must wait for its own handler (no result of the abandoned execution may be taken for it)
